@@ -28,6 +28,7 @@ RULE = (
 ASSUMPTIONS = [
     "well-formed input only: contiguous residues, every numeric field present (occupancy may be absent in mmCIF)",
     "corpus mmCIF rows that carry neither a complete label identity (asym, numeric seq, comp) nor an author identity (asym, seq; name from auth or label) are outside the quantifier; the reader skips them by design",
+    "when no model is requested and every row before another model's first row is an atom the reader may drop (duplicate / closer than 0.5 A), either model is accepted as 'the first' - the statement does not decide it (arises only with interleaved model rows)",
     "ties in occupancy accept any maximal copy; clusters of >=3 mutually close atoms only require that no two survivors are certainly closer than 0.5 A",
     "trusted: harness emitters/decoders in rnaverif/atomtab.py (CIF tokenizer cross-checked against IoAdapterPy on the corpus)",
 ]
@@ -229,6 +230,44 @@ def compare(s3, atoms, model, tag):
     return res
 
 
+def default_candidates(atoms):
+    """models that 'the first model' may denote when no model is requested: the model of the first row, and - only when
+    every earlier row is an atom the reader may legitimately drop (a lower-occupancy duplicate or one of two atoms
+    closer than 0.5 A) - the model of the next row. For files whose models are contiguous this is one model unless a
+    whole leading residue is droppable; the statement does not say which model is 'first' once its leading atoms are gone."""
+    cands = []
+    dup = Counter((a["model"], a.get("_label"), a["chain"], a["resseq"], a["icode"] or None, a["name"]) for a in atoms)
+    by_model = {}
+    for k, a in enumerate(atoms):
+        by_model.setdefault(a["model"], []).append(k)
+    close = set()
+    for m, idx in by_model.items():
+        for i, j, _ in close_pairs([(atoms[k]["x"], atoms[k]["y"], atoms[k]["z"]) for k in idx]):
+            close.add(idx[i])
+            close.add(idx[j])
+    for k, a in enumerate(atoms):
+        if a["model"] not in cands:
+            cands.append(a["model"])
+        droppable = dup[(a["model"], a.get("_label"), a["chain"], a["resseq"], a["icode"] or None, a["name"])] > 1 or k in close
+        if not droppable:
+            break
+    return cands
+
+
+def compare_request(s3, atoms, mreq, tag):
+    """compare() for an explicit model; for the default request every admissible reading of 'the first model'"""
+    if mreq is not None:
+        return compare(s3, atoms, mreq, tag)
+    first = None
+    for m in default_candidates(atoms):
+        ds = compare(s3, atoms, m, tag)
+        if not ds:
+            return []
+        if first is None:
+            first = ds
+    return first or []
+
+
 def read_text(text, ext, model):
     from rnapolis.parser import read_3d_structure
 
@@ -278,11 +317,11 @@ def oracle_table(case):
         text = atomtab.emit_cif(atoms2, case["missing_occ"])
         for mreq in [None] + models:
             s3 = read_text(text, "cif", mreq)
-            out += compare(s3, atoms2, mreq, "cif-no-occupancy")
+            out += compare_request(s3, atoms2, mreq, "cif-no-occupancy")
     for tag, text, ext in variants:
         for mreq in [None] + models:
             s3 = read_text(text, ext, mreq)
-            out += compare(s3, atoms, mreq, tag.replace("?", "-q").replace(".", "-dot"))
+            out += compare_request(s3, atoms, mreq, tag.replace("?", "-q").replace(".", "-dot"))
     dia = case.get("dialect")
     if dia:
         # mmCIF fixes neither the item order nor the presence of optional items: leave some out, permute the rest,
@@ -308,7 +347,7 @@ def oracle_table(case):
         text = atomtab.emit_cif(atoms4, "?", dialect={"drop": sorted(drop), "order": dia.get("order")})
         for mreq in [None] + (models if "pdbx_PDB_model_num" not in drop else []):
             s3 = read_text(text, "cif", mreq)
-            out += compare(s3, exp_atoms, mreq, "cif-dialect")
+            out += compare_request(s3, exp_atoms, mreq, "cif-dialect")
     if case.get("row_order") and len(models) >= 2:
         # the atom_site loop has no ordering constraint: rows of one model need not be contiguous. Residues stay
         # contiguous within their model; the expectation is computed from the rows in the order written.
@@ -316,7 +355,7 @@ def oracle_table(case):
         text = atomtab.emit_cif(atoms3, "?")
         for mreq in [None] + models:
             s3 = read_text(text, "cif", mreq)
-            out += compare(s3, atoms3, mreq, "cif-rows-" + case["row_order"])
+            out += compare_request(s3, atoms3, mreq, "cif-rows-" + case["row_order"])
     seen, res = set(), []
     for d in out:
         if d.sig not in seen:
@@ -354,7 +393,7 @@ def oracle_file(case):
     for mreq in [None] + models[: case.get("max_models", 2)] + ([models[-1]] if len(models) > 2 else []):
         with corpus.open_corpus(fn) as f:
             s3 = read_3d_structure(f, mreq)
-        out += compare(s3, atoms, mreq, "corpus")
+        out += compare_request(s3, atoms, mreq, "corpus")
     seen, res = set(), []
     for d in out:
         if d.sig not in seen:
